@@ -5,23 +5,23 @@ import PySMT.Proofs.C18Search
 namespace PySMT.Opt
 
 section
-variable {M : Type} {A : M → Prop} {obj : Nat → M → Int} {o : Oracle M}
+variable {M : Type} {A : M → Prop} {val : Nat → M → Val} {obj : Nat → M → Int} {o : Oracle M}
 variable {g : Goal} {gi : Nat}
 
 /-- the invariant holds after the first satisfiable step -/
 theorem first_LInv {base ex : List Constraint} {marks0 : List Nat} {bad0 : Bool}
-    (hDom : ∀ m, A m → castOk g.dom (obj gi m) = true) (strat : Strat)
-    (m : M) (hm : Feas A obj base ex m) (s1 : Solver M)
-    (hS : ∀ t, SInv A obj g gi base ex marks0 bad0 t s1) :
-    LInv A obj g gi base ex marks0 bad0 strat (searchIsSat g (Interval.init g) (obj gi m)) m s1 := by
-  have hv := hDom m hm.1
+    (hG : GoalReads A val obj g gi) (strat : Strat)
+    (m : M) (hm : Feas A val base ex m) (s1 : Solver M)
+    (hS : ∀ t, SInv A val obj g gi base ex marks0 bad0 t s1) :
+    LInv A val obj g gi base ex marks0 bad0 strat (searchIsSat g (Interval.init g) (obj gi m)) m s1 := by
+  have hv := hG.castOk m hm.1
   refine ⟨hm, ?_, ?_, ?_, ?_, fun _ => pivot_searchIsSat _ _ _, hS _⟩
   · cases hn : near g (Interval.init g) with
     | none => exact near_searchIsSat_none g _ _ hn
     | some n => exact near_searchIsSat_lt g _ _ n hn (near_init_bv g n _ hn hv)
   · intro f hf m' hm'
     rw [far_searchIsSat] at hf
-    exact far_init_bound g f _ hf (hDom m' hm'.1)
+    exact far_init_bound g f _ hf (hG.castOk m' hm'.1)
   · intro f hf
     rw [far_searchIsSat] at hf
     exact farOk_init g f hf
@@ -31,19 +31,19 @@ theorem first_LInv {base ex : List Constraint} {marks0 : List Nat} {bad0 : Bool}
 
 /-- result of `_optimize`: solver restored; `none` iff infeasible; otherwise a feasible model whose
     cost is its objective value and is optimal -/
-def OptPost (A : M → Prop) (obj : Nat → M → Int) (g : Goal) (gi : Nat) (ex : List Constraint) (s : Solver M)
+def OptPost (A : M → Prop) (val : Nat → M → Val) (obj : Nat → M → Int) (g : Goal) (gi : Nat) (ex : List Constraint) (s : Solver M)
     (r : Outcome (Option (M × Int)) × Solver M) : Prop :=
   r.1 = .fuel ∨
   ∃ res, r.1 = .done res ∧ r.2.stack = s.stack ∧ r.2.marks = s.marks ∧ r.2.bad = s.bad ∧
-    (res = none ↔ ¬ ∃ m, Feas A obj s.stack ex m) ∧
+    (res = none ↔ ¬ ∃ m, Feas A val s.stack ex m) ∧
     ∀ m c, res = some (m, c) →
-      Feas A obj s.stack ex m ∧ c = obj gi m ∧ ∀ m', Feas A obj s.stack ex m' → sg g c ≤ sg g (obj gi m')
+      Feas A val s.stack ex m ∧ c = obj gi m ∧ ∀ m', Feas A val s.stack ex m' → sg g c ≤ sg g (obj gi m')
 
-theorem optimize_spec (hO : OracleSpec A obj o) (hsup : g.supported = true)
-    (hDom : ∀ m, A m → castOk g.dom (obj gi m) = true)
+theorem optimize_spec (hO : OracleSpec A val o) (hsup : g.supported = true)
+    (hG : GoalReads A val obj g gi)
     (mx : Mixin) (strat : Strat) (extra : List Constraint) (fuel : Nat) (s : Solver M) :
-    OptPost A obj g gi (effExtra mx extra) s (optimize o obj mx strat g gi extra fuel s) := by
-  have hcf := check_first (g := g) (gi := gi) (base := s.stack) (marks0 := s.marks) (bad0 := s.bad)
+    OptPost A val obj g gi (effExtra mx extra) s (optimize o obj mx strat g gi extra fuel s) := by
+  have hcf := check_first (obj := obj) (g := g) (gi := gi) (base := s.stack) (marks0 := s.marks) (bad0 := s.bad)
     hO mx strat extra rfl s.push rfl rfl rfl
   unfold optimize
   simp only [hsup, init_not_empty]
@@ -62,8 +62,8 @@ theorem optimize_spec (hO : OracleSpec A obj o) (hsup : g.supported = true)
     · intro m c h; cases h
   | some m =>
     have hfm := hsat m rfl
-    have hI := first_LInv (g := g) (gi := gi) hDom strat m hfm s1 hinv
-    have hL := loop_correct hO rfl hDom fuel _ m s1 hI
+    have hI := first_LInv (g := g) (gi := gi) hG strat m hfm s1 hinv
+    have hL := loop_correct hO rfl hG fuel _ m s1 hI
     simp only [Bool.not_true, Bool.false_eq_true, if_false]
     cases hl : searchLoop o obj mx strat g gi extra fuel (searchIsSat g (Interval.init g) (obj gi m)) m s1 with
     | mk out s2 =>
@@ -87,13 +87,13 @@ theorem optimize_spec (hO : OracleSpec A obj o) (hsup : g.supported = true)
 
 /-- termination of `_optimize`: when the optimum of the feasible set is attained (or the set is
     empty) there is an amount of fuel from which on the model never runs out -/
-theorem optimize_terminates (hO : OracleSpec A obj o) (hsup : g.supported = true)
-    (hDom : ∀ m, A m → castOk g.dom (obj gi m) = true)
+theorem optimize_terminates (hO : OracleSpec A val o) (hsup : g.supported = true)
+    (hG : GoalReads A val obj g gi)
     (mx : Mixin) (strat : Strat) (extra : List Constraint) (s : Solver M)
-    (hatt : (∃ m, Feas A obj s.stack (effExtra mx extra) m) →
-      ∃ mo, ∀ m, Feas A obj s.stack (effExtra mx extra) m → sg g (obj gi mo) ≤ sg g (obj gi m)) :
+    (hatt : (∃ m, Feas A val s.stack (effExtra mx extra) m) →
+      ∃ mo, ∀ m, Feas A val s.stack (effExtra mx extra) m → sg g (obj gi mo) ≤ sg g (obj gi m)) :
     ∃ N, ∀ fuel, fuel ≥ N → (optimize o obj mx strat g gi extra fuel s).1 ≠ .fuel := by
-  have hcf := check_first (g := g) (gi := gi) (base := s.stack) (marks0 := s.marks) (bad0 := s.bad)
+  have hcf := check_first (obj := obj) (g := g) (gi := gi) (base := s.stack) (marks0 := s.marks) (bad0 := s.bad)
     hO mx strat extra rfl s.push rfl rfl rfl
   unfold optimize
   simp only [hsup, init_not_empty]
@@ -106,8 +106,8 @@ theorem optimize_terminates (hO : OracleSpec A obj o) (hsup : g.supported = true
   | some m =>
     have hfm := hsat m rfl
     obtain ⟨mo, hmo⟩ := hatt ⟨m, hfm⟩
-    have hI := first_LInv (g := g) (gi := gi) hDom strat m hfm s1 hinv
-    obtain ⟨N, hN⟩ := loop_terminates hO rfl hDom mo hmo (sg g (obj gi m) - sg g (obj gi mo)).toNat _ m s1 hI
+    have hI := first_LInv (g := g) (gi := gi) hG strat m hfm s1 hinv
+    obtain ⟨N, hN⟩ := loop_terminates hO rfl hG mo hmo (sg g (obj gi m) - sg g (obj gi mo)).toNat _ m s1 hI
       (by omega)
     refine ⟨N, ?_⟩
     intro fuel hge
